@@ -153,6 +153,9 @@ def st_case(draw, tier):
     else:
         spec = draw(Z.st_cubic(family="traced"))   # ~4 s per case (interpolated EOS): 2.5 % quick, 7.5 % thorough
     tol = draw(Z.st_tolerances())
+    if draw(st.integers(0, 4)) == 0:
+        # a user-chosen absolute tolerance that is not negligible (the backward window scales with it)
+        tol = [1e-6, 1e-6]
     if spec["family"] == "traced":
         tol = [1e-6, 1e-10]
     solver = "general"
